@@ -48,7 +48,7 @@ func init() {
 // state shared between the scheduler hook (norace) and the run.
 var (
 	cur        *sched.S
-	fpRoots    [2]any
+	fpRoots    [3]any
 	fpBase     uint64
 	fpViolated bool
 	fpTask     int
@@ -87,7 +87,7 @@ func check(task int, site uint32, step int64) {
 	if fpViolated {
 		return
 	}
-	if gen.Fingerprint(fpRoots[0], fpRoots[1]) != fpBase {
+	if gen.Fingerprint(fpRoots[0], fpRoots[1], fpRoots[2]) != fpBase {
 		fpViolated = true
 		fpTask, fpSite, fpStep = task, site, step
 		if task >= 0 && task < len(curOp) {
@@ -151,6 +151,16 @@ func resultAliases(c *core.Ctx, phase string, plans []taskPlan, res [][]string) 
 	}
 }
 
+// writeClass names what was written: the last field on the path, or "list-argument[]" when the
+// difference is in a list the operation was handed as an argument (third fingerprint root).
+func writeClass(d string) string {
+	cls := gen.PathClass(d)
+	if strings.HasPrefix(d, "[2]") && !strings.Contains(cls, ".") {
+		return "list-argument[]"
+	}
+	return cls
+}
+
 type taskPlan struct {
 	ops []*op
 }
@@ -190,6 +200,36 @@ func run(c *core.Ctx) {
 		c.Probe("w_is_structural_twin_of_v")
 	default:
 		w = gen.New(t, k).Top()
+	}
+	if !canary && c.RunIndex%ColdEvery != 0 && t.Bool(1, 48) {
+		// a busy list: code that treats long lists differently (chunked scans, helper goroutines,
+		// indexes built past a threshold) only shows itself on one. v is a collection (or a bare list)
+		// with 129..600 member ids, w holds the same members in another order (so that comparisons
+		// and membership tests find what they look for)
+		sizes := []int{129, 257}
+		if c.Tier == "thorough" {
+			sizes = []int{129, 257, 257, 600}
+		}
+		n := sizes[t.Draw(len(sizes))]
+		members := make(ap.ItemCollection, n)
+		for i := range members {
+			members[i] = g.IRI()
+		}
+		rot := make(ap.ItemCollection, n)
+		for i := range rot {
+			rot[i] = members[(i+n/3)%n]
+		}
+		switch t.Draw(3) {
+		case 0:
+			v, w = members, rot
+		case 1:
+			v = &ap.OrderedCollection{ID: g.IRI(), Type: ap.OrderedCollectionType, OrderedItems: members, TotalItems: uint(n)}
+			w = &ap.OrderedCollection{ID: v.GetLink(), Type: ap.OrderedCollectionType, OrderedItems: rot, TotalItems: uint(n)}
+		default:
+			v = &ap.Collection{ID: g.IRI(), Type: ap.CollectionType, Items: members, TotalItems: uint(n)}
+			w = members[n-2]
+		}
+		c.Probe("busy_list_run")
 	}
 	e := &env{v: v, w: w, vSize: structSize(v), subs: findSubs(v)}
 	c.Logf("v=%T w=%T knobs=%+v", v, w, k)
@@ -268,15 +308,18 @@ func run(c *core.Ctx) {
 	}
 
 	// ---- O2 baseline, before anything touches the values
-	fpRoots = [2]any{v, w}
+	// (the third root: the list arguments the operations are handed – shared by all tasks, and as
+	// much "arguments" of the read-only operations as the values are)
+	args := e.argLists
+	fpRoots = [3]any{v, w, args}
 	sharedBytes = gen.ByteRanges(v, w)
-	fpBase = gen.Fingerprint(v, w)
-	baseDump := gen.DumpLines([]any{v, w}, true)
+	fpBase = gen.Fingerprint(v, w, args)
+	baseDump := gen.DumpLines([]any{v, w, args}, true)
 	fpViolated, fpOp = false, ""
 	reportWrite := func(phase, opName string) {
-		now := gen.DumpLines([]any{v, w}, true)
+		now := gen.DumpLines([]any{v, w, args}, true)
 		d := gen.Diff(baseDump, now)
-		c.Fail("write", "C12/write/"+gen.PathClass(d), "%s: %s changed the shared value: %s", phase, opName, d)
+		c.Fail("write", "C12/write/"+writeClass(d), "%s: %s changed the shared value: %s", phase, opName, d)
 	}
 
 	// ---- O3 reference: the sequential pass, bracketed operation by operation
@@ -303,14 +346,14 @@ func run(c *core.Ctx) {
 					c.Probe("operation_panics_sequentially")
 				}
 				res[ti][oi] = r
-				if perOp && gen.Fingerprint(v, w) != fpBase {
+				if perOp && gen.Fingerprint(v, w, args) != fpBase {
 					reportWrite(phase, o.name)
 					return res, steps
 				}
 			}
 		}
 		simrt.Trace = nil
-		if !perOp && gen.Fingerprint(v, w) != fpBase {
+		if !perOp && gen.Fingerprint(v, w, args) != fpBase {
 			reportWrite(phase, "(some operation of this pass)")
 		}
 		finalizeAll(res)
@@ -468,14 +511,14 @@ func run(c *core.Ctx) {
 		if int(fpSite) < len(verifsim.Sites) {
 			site = verifsim.Sites[fpSite]
 		}
-		now := gen.DumpLines([]any{v, w}, true)
+		now := gen.DumpLines([]any{v, w, args}, true)
 		d := gen.Diff(baseDump, now)
 		if d == "" {
 			d = "(restored before the end of the run: a write-then-restore sequence)"
 		}
-		c.Fail("write", "C12/write/"+gen.PathClass(d), "under the schedule, at step %d (task %d, %s) the shared value differed from its initial state while %s was running: %s", fpStep, fpTask, site, fpOp, d)
+		c.Fail("write", "C12/write/"+writeClass(d), "under the schedule, at step %d (task %d, %s) the shared value differed from its initial state while %s was running: %s", fpStep, fpTask, site, fpOp, d)
 	}
-	if !c.Failed() && gen.Fingerprint(v, w) != fpBase {
+	if !c.Failed() && gen.Fingerprint(v, w, args) != fpBase {
 		reportWrite("after the join", "(some operation of the concurrent phase)")
 	}
 	if cold && !c.Failed() {
